@@ -19,6 +19,8 @@ CLAUSE = CLAUSE + (" In vbi_event_handler_add (which removes *every* record of a
 CLAUSE = CLAUSE + (" (RF-WHO) a handler record's callback and user pointer are written only into a record allocated on the same "
                    "path (never into one reached through the list); (RF-UAF) no function continues a walk from a successor pointer it "
                    "read before calling something that may free handler records.")
+CLAUSE = CLAUSE + (" Every free of a deferred-trigger node follows the store that unlinks it; every send of the persistent "
+                   "network record follows, in the same block, the store of its type.")
 NOT_DECIDED = "delivery order and exactly-once delivery as such, nested re-entrancy depth, user-pointer identity (values)."
 
 UNIT = "src/vbi.c"
@@ -123,6 +125,8 @@ def run(ctx, run):
     _gate_mask_agreement(ctx, run)
     _identity_written_at_creation(ctx, run)
     _no_cached_successor_across_free(ctx, run)
+    _trigger_unlinked_before_free(ctx, run)
+    _network_event_typed_at_send(ctx, run)
 
 
 def _unlinked_before(f, free_eid, eh):
@@ -756,3 +760,87 @@ def _use_after(f, c, name):
             return r
         st.extend(s for s, _ in f.edges(n))
     return None
+
+
+def _trigger_unlinked_before_free(ctx, run):
+    """RF-UAF: the deferred-trigger list hangs off vbi->triggers; it is walked on every frame
+    (vbi_deferred_trigger) and flushed when the TRIGGER service is re-activated by a handler
+    registration or on a channel switch.  Every free() of a list node is preceded, in the same
+    step, by the store that takes the node out of the list (`... = t->next` into the link that
+    pointed at it): a flush that frees the nodes but keeps the head lets the next frame walk
+    freed records."""
+    P = ctx.prog
+    n = 0
+    for f in P.funcs:
+        if f.file != "src/trigger.c":
+            continue
+        for bid, i in flow.all_events(f):
+            e = f.exprs[i]
+            if not (e["k"] == "call" and e.get("callee") == "free" and e.get("c")):
+                continue
+            a = f.exprs[ex.skip(f, e["c"][0])]
+            while a["k"] == "cast":
+                a = f.exprs[ex.skip(f, a["c"][0])]
+            if a["k"] != "ref" or "vbi_trigger" not in (a.get("t") or ""):
+                continue
+            n += 1
+            run.touch(f)
+            node = a["name"]
+            ok = False
+            blk = f.blocks[bid].elems
+            for j in blk[:blk.index(i)]:
+                if not flow.is_event(f, j):
+                    continue
+                for lhs, var, op, rhs in flow.stores(f, j):
+                    if lhs is None or rhs is None or op != "=":
+                        continue
+                    r = f.exprs[ex.skip(f, rhs)]
+                    while r["k"] == "cast":
+                        r = f.exprs[ex.skip(f, r["c"][0])]
+                    l = f.exprs[ex.skip(f, lhs)]
+                    if r["k"] == "mem" and r["member"] == "next" and f.exprs[ex.skip(f, r["c"][0])].get("name") == node \
+                            and l["k"] in ("mem", "un"):
+                        ok = True       # link (a field or *tp) := node->next
+            key = "RF-UAF:%s:trigger-unlinked-before-free" % f.name
+            if ok:
+                run.holds("RF-UAF", key, "`%s` follows the store that takes the node out of the list" % ex.pretty(f, i), ex.loc(f, i))
+            else:
+                run.violation("RF-UAF", key, "%s() frees a deferred-trigger node (`%s`) without first storing its successor into the "
+                              "link that points at it: the list (vbi->triggers) keeps a pointer to the freed record and "
+                              "vbi_deferred_trigger() reads it on the next frame" % (f.name, ex.pretty(f, i)), ex.loc(f, i))
+    run.floor("frees of deferred-trigger nodes", n, 3)
+
+
+def _network_event_typed_at_send(ctx, run):
+    """RF-DEP: vbi->network is one persistent event record used for both NETWORK and NETWORK_ID
+    announcements (and zeroed by resets and re-activations).  Every vbi_send_event (vbi,
+    &vbi->network) is preceded, with no other send in between, by the store that gives it its
+    type in the same basic block - otherwise it goes out with whatever type the record had last
+    (0 after a reset: delivered to nobody; NETWORK after a change: to the wrong handlers)."""
+    P = ctx.prog
+    n = 0
+    for f in P.funcs:
+        if not f.file.startswith("src/"):
+            continue
+        for bid, b in f.blocks.items():
+            typed = False
+            for i in b.elems:
+                if not flow.is_event(f, i):
+                    continue
+                for lhs, var, op, rhs in flow.stores(f, i):
+                    if lhs is not None and ex.pretty(f, lhs).replace(" ", "").endswith("->network.type"):
+                        typed = True
+                e = f.exprs[i]
+                if e["k"] == "call" and e.get("callee") == "vbi_send_event" and len(e.get("c", [])) > 1 \
+                        and ex.pretty(f, e["c"][1]).replace(" ", "").endswith("&vbi->network"):
+                    n += 1
+                    run.touch(f)
+                    key = "RF-DEP:%s:network-event-typed@%d" % (f.name, f.exprs[i]["line"])
+                    if typed:
+                        run.holds("RF-DEP", key, "the record's type is stored right before the send", ex.loc(f, i))
+                    else:
+                        run.violation("RF-DEP", key, "%s() sends the persistent network record without having set its type since the "
+                                      "previous send (or at all on this path): the event goes out with a stale type - 0 after a "
+                                      "reset, so no handler receives it" % f.name, ex.loc(f, i))
+                    typed = False
+    run.floor("sends of the persistent network record", n, 6)
